@@ -253,7 +253,7 @@ class Schema:
             fields.append([f"{prefix}{name.lower()}_nat", T(r.choice(NATIVE_LEAVES)), None])
         if tag is not None:
             fields.append([tag[0], T("lit", [tag[1]]), repr(tag[1])])
-        if not self.small and base is None and discr_field is None and (force_self or r.random() < 0.10):
+        if base is None and discr_field is None and (force_self or r.random() < (0.15 if self.small else 0.10)):
             # a field referring to the class itself: by name (forward reference, always the declaring class) or
             # by typing.Self (the class of the instance: a subclass nests instances of the subclass)
             use_self = force_self or r.random() < 0.5
@@ -346,10 +346,10 @@ class Schema:
 
     def gen_type(self, depth, allow_classes=True) -> T:
         r = self.rng
-        if self.small:
-            if depth <= 0 or r.random() < 0.45:
-                return T(r.choice(SMALL_LEAVES))
-            c = r.choice(["list", "dict", "opt", "opt", "dc", "dc"])
+        if self.small:          # the grammar of the Coq model (Fmt.v)
+            if depth <= 0 or r.random() < 0.42:
+                return T("any") if r.random() < 0.12 else T(r.choice(SMALL_LEAVES))
+            c = r.choice(["list", "dict", "opt", "opt", "dc", "dc", "child", "dunion"])
             if c == "list":
                 return T("list", self.gen_type(depth - 1))
             if c == "dict":
@@ -357,6 +357,14 @@ class Schema:
             if c == "opt":
                 inner = self.gen_type(depth - 1)
                 return inner if inner.kind == "opt" else T("opt", inner)
+            if c == "child":
+                b = self.new_dc(depth - 1, force_self=r.random() < 0.4)
+                return self.new_dc(depth - 1, base=b.name)
+            if c == "dunion":
+                fld = r.choice(["kind", "type", "t"])
+                vs = [self.new_dc(depth - 1, prefix=f"dv{i}", tag=(fld, lit), force_native=r.random() < 0.8)
+                      for i, lit in enumerate(r.choice([["a", "b"], ["x", "y", "z"]]))]
+                return T("dunion", vs, fld)
             return self.new_dc(depth - 1)
         if depth <= 0 or r.random() < 0.42:
             return self.gen_leaf()
@@ -661,7 +669,7 @@ def _whole_minute(tz_holder) -> bool:
     return off is None or (off.microseconds == 0 and off.seconds % 60 == 0)
 
 
-def outside_subset(F: str, v, top=True, ctx="top"):
+def outside_subset(F: str, v, top=True, ctx="top", skip_datetime_offsets=False):
     """None if v lies inside F's representable subset, else the reason (a short tag).
 
     From the property's quantifier:
@@ -684,7 +692,7 @@ def outside_subset(F: str, v, top=True, ctx="top"):
     if isinstance(v, bool):
         return None
     if isinstance(v, enum.Enum):
-        return outside_subset(F, v.value, False, ctx)
+        return outside_subset(F, v.value, False, ctx, skip_datetime_offsets)
     if isinstance(v, int):
         if F in ("orjson", "msgpack") and not (I64_MIN <= v <= I64_MAX):
             return "int-beyond-64-bit"
@@ -694,7 +702,7 @@ def outside_subset(F: str, v, top=True, ctx="top"):
             return "orjson-non-finite-float"
         return None
     if isinstance(v, dt.datetime):
-        if F in ("orjson", "toml") and not _whole_minute(v):
+        if F in ("orjson", "toml") and not _whole_minute(v) and not skip_datetime_offsets:
             return "sub-minute-utc-offset"
         return None
     if isinstance(v, dt.time):
@@ -703,7 +711,7 @@ def outside_subset(F: str, v, top=True, ctx="top"):
         return None
     if dataclasses.is_dataclass(v):
         for f in dataclasses.fields(v):
-            why = outside_subset(F, getattr(v, f.name), False, "field")
+            why = outside_subset(F, getattr(v, f.name), False, "field", skip_datetime_offsets)
             if why:
                 return why
         return None
@@ -712,13 +720,13 @@ def outside_subset(F: str, v, top=True, ctx="top"):
             if F in ("orjson", "msgpack", "toml"):
                 if not (type(k) is str or (isinstance(k, enum.Enum) and type(k.value) is str)):
                     return "non-string-map-key"
-            why = outside_subset(F, x, False, "elem")
+            why = outside_subset(F, x, False, "elem", skip_datetime_offsets)
             if why:
                 return why
         return None
     if isinstance(v, (list, tuple, set, frozenset)):
         for x in v:
-            why = outside_subset(F, x, False, "elem")
+            why = outside_subset(F, x, False, "elem", skip_datetime_offsets)
             if why:
                 return why
         return None
@@ -973,6 +981,11 @@ def coq_ty(t: T, S: Schema) -> str:
         return {"int": "TInt", "float": "TFloat", "bool": "TBool", "str": "TStr"}[k]
     if k in LKIND:
         return f"(TLeaf {LKIND[k]})"
+    if k == "any":
+        return "TAny"
+    if k == "lit":
+        assert len(t.args[0]) == 1 and isinstance(t.args[0][0], str)
+        return f"(TLit {_cs(t.args[0][0])})"
     if k == "list":
         return f"(TList {coq_ty(t.args[0], S)})"
     if k == "dict":
@@ -981,10 +994,28 @@ def coq_ty(t: T, S: Schema) -> str:
     if k == "opt":
         return f"(TOpt {coq_ty(t.args[0], S)})"
     if k == "dc":
-        fs = S.classes[t.name]["fields"]
-        return "(TRec %s [%s])" % (_cs(t.name), "; ".join(
-            "(%s, (%s, %s))" % (_cs(f), coq_ty(ft, S), "true" if d == "None" else "false") for f, ft, d in fs))
+        return f"(TData {_cs(t.name)})"
+    if k in ("selfopt", "selflist"):
+        inner = "TSelf" if (t.args and t.args[0]) else f"(TData {_cs(t.name)})"
+        return f"(TOpt {inner})" if k == "selfopt" else f"(TList {inner})"
+    if k == "dunion":
+        tags = []
+        for v in t.args[0]:
+            lit = [ft for f, ft, _ in S.classes[v.name]["fields"] if f == t.args[1]][0].args[0][0]
+            tags.append(f"({_cs(lit)}, {_cs(v.name)})")
+        return f"(TDiscr {_cs(t.args[1])} [{'; '.join(tags)}])"
     raise ValueError(k)
+
+
+def coq_env(S: Schema) -> str:
+    """class table: every generated dataclass with its (inherited, flattened) field declarations"""
+    out = []
+    for name, c in S.classes.items():
+        if c["kind"] != "dc":
+            continue
+        out.append("(%s, [%s])" % (_cs(name), "; ".join(
+            "(%s, (%s, %s))" % (_cs(f), coq_ty(ft, S), "true" if d == "None" else "false") for f, ft, d in c["fields"])))
+    return "[" + "; ".join(out) + "]"
 
 
 def leaf_payload(v) -> tuple[str, str, str]:
@@ -1006,21 +1037,33 @@ def leaf_payload(v) -> tuple[str, str, str]:
     raise TypeError(type(v))
 
 
-def coq_pv(v, t: T, S: Schema, tab: list, unrepr: dict) -> str:
-    k = t.kind
-    if k == "opt":
-        return "VNone" if v is None else coq_pv(v, t.args[0], S, tab, unrepr)
-    if k == "int":
-        return f"(VInt ({v}))"
-    if k == "float":
-        return f"(VFloat {coq_float(v)})"
-    if k == "bool":
+# user dialects of the model cases: name -> (kind, callable id, independent rendering)
+MODEL_USER_DIALECTS = {
+    "XD_empty": [],
+    "XD_bytes": [("KBytes", 2, lambda v: v.hex())],
+    "XD_bytearray": [("KBytearray", 3, lambda v: bytes(v).hex())],
+    "XD_datetime": [("KDatetime", 4, lambda v: v.isoformat())],
+}
+
+
+def coq_pv(v, S: Schema, tab: list, unrepr: dict, utab: list, user: list) -> str:
+    """value-directed encoding (the model's values carry their own classes)"""
+    if v is None:
+        return "VNone"
+    if isinstance(v, bool):
         return "(VBool %s)" % ("true" if v else "false")
-    if k == "str":
+    if isinstance(v, int):
+        return f"(VInt ({v}))"
+    if isinstance(v, float):
+        return f"(VFloat {coq_float(v)})"
+    if isinstance(v, str):
         return f"(VStr {_cs(v)})"
-    if k in LKIND:
+    if isinstance(v, (bytes, bytearray, dt.datetime, dt.date, dt.time, uuid.UUID, decimal.Decimal)):
         kind, p, text = leaf_payload(v)
         tab.append((kind, p, text))
+        for uk, uid, fn in user:
+            if uk == kind:
+                utab.append((uid - 2, kind, p, fn(v)))
         if isinstance(v, dt.time) and v.tzinfo is not None:
             for F in ("orjson", "toml"):
                 unrepr.setdefault(F, []).append((kind, p))
@@ -1028,14 +1071,49 @@ def coq_pv(v, t: T, S: Schema, tab: list, unrepr: dict) -> str:
             for F in ("orjson", "toml"):
                 unrepr.setdefault(F, []).append((kind, p))
         return f"(VLeaf {kind} {_cs(p)})"
-    if k == "list":
-        return "(VList [%s])" % "; ".join(coq_pv(x, t.args[0], S, tab, unrepr) for x in v)
-    if k == "dict":
-        return "(VDict [%s])" % "; ".join(f"({_cs(a)}, {coq_pv(x, t.args[1], S, tab, unrepr)})" for a, x in v.items())
-    if k == "dc":
-        return "(VObj %s [%s])" % (_cs(t.name), "; ".join(
-            f"({_cs(f)}, {coq_pv(getattr(v, f), ft, S, tab, unrepr)})" for f, ft, _ in S.classes[t.name]["fields"]))
-    raise ValueError(k)
+    if isinstance(v, list):
+        return "(VList [%s])" % "; ".join(coq_pv(x, S, tab, unrepr, utab, user) for x in v)
+    if isinstance(v, dict):
+        return "(VDict [%s])" % "; ".join(f"({_cs(a)}, {coq_pv(x, S, tab, unrepr, utab, user)})" for a, x in v.items())
+    if dataclasses.is_dataclass(v):
+        name = type(v).__name__
+        return "(VObj %s [%s])" % (_cs(name), "; ".join(
+            f"({_cs(f)}, {coq_pv(getattr(v, f), S, tab, unrepr, utab, user)})" for f, _, _ in S.classes[name]["fields"]))
+    raise TypeError(type(v))
+
+
+TYPE_KIND = {bytes: "KBytes", bytearray: "KBytearray", dt.datetime: "KDatetime", dt.date: "KDate", dt.time: "KTime",
+             uuid.UUID: "KUuid"}
+
+
+def coq_format_dialect(F: str):
+    """(entries, omit_none) of the format's own dialect class as declared in /repo, as Coq terms"""
+    import importlib
+    from mashumaro.helper import pass_through
+    name = {"orjson": ("mashumaro.mixins.orjson", "OrjsonDialect"), "msgpack": ("mashumaro.mixins.msgpack", "MessagePackDialect"),
+            "toml": ("mashumaro.mixins.toml", "TOMLDialect")}.get(F)
+    if name is None:
+        return "[]", "false"
+    D = getattr(importlib.import_module(name[0]), name[1])
+
+    def cid(f):
+        if f is pass_through:
+            return 0
+        if f is bytearray:
+            return 1
+        return 99
+
+    ents = []
+    for typ, val in D.serialization_strategy.items():
+        kind = TYPE_KIND.get(typ, "KText")
+        if isinstance(val, dict):
+            so = f"(Some {cid(val['serialize'])}%nat)" if "serialize" in val else "None"
+            do = f"(Some {cid(val['deserialize'])}%nat)" if "deserialize" in val else "None"
+            ents.append(f"({kind}, EDict {so} {do})")
+        else:
+            ents.append(f"({kind}, EObj {cid(val)}%nat)")
+    omit = getattr(D, "omit_none", None) is True
+    return "[" + "; ".join(ents) + "]", "true" if omit else "false"
 
 
 def coq_bv(b) -> str:
